@@ -322,6 +322,16 @@ pub fn run_c15(env: &Env, tier: &str) -> i32 {
             return 2;
         }
     };
+    // the same no_std crates once more, with a host-side (build-dependency) user of nutype that has the
+    // default `std` feature on: the single host build of nutype_macros then carries `std` while the
+    // client's nutype does not
+    let host_res = match cf::verdicts(env, &env.work.join("gen/c15host"), "c15host", &units, true, false) {
+        Ok(r) => r,
+        Err(e) => {
+            eprintln!("INCONCLUSIVE: {e}");
+            return 2;
+        }
+    };
     let mut viols = vec![];
     let mut std_rejected = 0;
     for u in &units {
@@ -330,6 +340,16 @@ pub fn run_c15(env: &Env, tier: &str) -> i32 {
         if !s.accepted {
             std_rejected += 1;
             continue; // not an accepted declaration: outside the property (C08's subject)
+        }
+        let h = &host_res.verdicts[&u.id];
+        if n.accepted && !h.accepted {
+            let (code, msg) = h.errors.first().cloned().unwrap_or_default();
+            viols.push(CViol {
+                signature: format!("C15|{}|accepted-in-no_std|rejected-when-host-side-nutype-has-std|{}", u.class, code),
+                unit: u.clone(),
+                expected: "compiles in a #![no_std] crate whatever features another (host-side) user of nutype enables".into(),
+                actual: format!("rejected: {code} {msg}"),
+            });
         }
         if !n.accepted {
             let (code, msg) = n.errors.first().cloned().unwrap_or_default();
@@ -370,7 +390,8 @@ pub fn replay(env: &Env, case: &Value) -> i32 {
     let no_std = case["no_std"].as_bool().unwrap_or(false);
     let units = vec![u];
     let run_tests = !units[0].tests_must_fail.is_empty() || !units[0].tests_must_pass.is_empty();
-    let res = match cf::verdicts(env, &env.work.join("gen/replaycf"), "rcf", &units, no_std, run_tests) {
+    let host = case["signature"].as_str().is_some_and(|s| s.contains("host-side"));
+    let res = match cf::verdicts(env, &env.work.join(if host { "gen/replaycfhost" } else { "gen/replaycf" }), if host { "rcfhost" } else { "rcf" }, &units, no_std || host, run_tests) {
         Ok(r) => r,
         Err(e) => {
             eprintln!("INCONCLUSIVE: {e}");
